@@ -262,10 +262,20 @@ def judge_exec(sim, rec, res, case):
                 continue
             h = r['handovers'][0]
             final = h.get('target_state') or h['kind'].split(':')[-1]
-            truthful = (rps.DONE if spec['ending'] != 'exit' else rps.FAILED)
+            truthful = (rps.DONE if spec['ending'] not in ('exit', 'signal')
+                        else rps.FAILED)
             finished_first = spec['ending'] != 'long'
             if spec['poison']:
                 truthful = rps.FAILED
+            if uid in sim.cancel_faults:
+                # injected failure of the kill command inside the work
+                # routine: FAILED is the truthful ending, the process is the
+                # fault's business; the release count still is ours
+                res.count('late_cancel_kill_faults')
+                if r['unschedules'] != 1:
+                    mech = 'named-task-released-%d-times' % r['unschedules']
+                    res.violation(mech, '%s: %s' % (uid, r['order']), ctx)
+                continue
             if final != rps.CANCELED:
                 if not (final == truthful and (finished_first or
                                                spec['poison'])):
@@ -288,7 +298,8 @@ def judge_exec(sim, rec, res, case):
                 continue
             h = r['handovers'][0]
             final = h.get('target_state') or h['kind'].split(':')[-1]
-            exp = rps.FAILED if (spec['poison'] or spec['ending'] == 'exit') \
+            exp = rps.FAILED if (spec['poison'] or
+                                 spec['ending'] in ('exit', 'signal')) \
                   else rps.DONE
             if sim.case['spawner'] == 'NOOP':
                 exp = rps.FAILED if spec['poison'] else rps.DONE
